@@ -7,9 +7,11 @@ from vt.refs import status_ps37 as ref
 from pynetdicom2 import statuses, dimsemessages as dm
 
 ASSUMPTIONS = [
-    'the two module-level dicts of statuses.py (as filled by the real register_statuses() at import) are replaced under '
-    'the solver by IntervalTable objects built from them by run-length compression and checked equal to the dicts on '
-    'every interval boundary +-1 at harness import (and on all 65536 x 24 keys by vt.selftest); replays use the dicts',
+    'the big module-level look-up tables of statuses.py (as filled by the real register_statuses() at import; found by '
+    'size, whatever their organisation: flat by code, keyed by (command, code), nested per command) are replaced under '
+    'the solver by read-only IntervalTable objects built from them by run-length compression and checked equal to the '
+    'dicts on every interval boundary +-1 at harness import (and on all 65536 x 24 keys by vt.selftest); replays use '
+    'the dicts; registrations made by a condition run concretely on copies of the real dicts, which are then wrapped',
     'general (non service-specific) codes: only "0 is Success, everything else is not Success/Pending/Cancel, and is '
     'Failure unless PS3.7 Annex C lists it as a general warning" is demanded',
 ]
@@ -17,15 +19,32 @@ ASSUMPTIONS = [
 COMMANDS = [None] + sorted(dm.MESSAGE_TYPE)          # None + the 23 command-field codes
 
 
-class IntervalTable(object):
-    """dict stand-in: .get(key, default) by interval scan; key = code or (command_field, code)."""
+class Unwrappable(Exception):
+    pass
 
-    def __init__(self, real, keyed):
-        self.keyed = keyed
+
+class IntervalTable(object):
+    """Read-only stand-in for a look-up table of statuses.py whose keys are status codes, (x, code) pairs, or other
+    small keys whose values are again such tables: .get / [] / in by interval scan over run-length compressed rows.
+    Independent of how the module organises its tables (flat, keyed by pair, nested per command)."""
+
+    def __init__(self, real):
+        keys = list(real)
+        if keys and all(type(k) is tuple and len(k) == 2 and type(k[1]) is int for k in keys):
+            self.mode = 'pair'
+        elif all(type(k) is int for k in keys) and not any(isinstance(v, dict) for v in real.values()):
+            self.mode = 'code'
+        elif all(isinstance(v, dict) for v in real.values()):
+            self.mode = 'nested'
+        else:
+            raise Unwrappable(repr(keys[:3]))
         self.rows = {}
+        if self.mode == 'nested':
+            self.sub = dict((k, IntervalTable(v) if len(v) > 64 else v) for k, v in real.items())
+            return
         groups = {}
         for k, v in real.items():
-            cf, code = k if keyed else (None, k)
+            cf, code = k if self.mode == 'pair' else (None, k)
             groups.setdefault(cf, []).append((code, v))
         for cf, lst in groups.items():
             lst.sort(key=lambda t: t[0])
@@ -37,32 +56,63 @@ class IntervalTable(object):
                     rows.append([code, code, v])
             self.rows[cf] = [tuple(r) for r in rows]
 
+    _MISSING = object()
+
     def get(self, key, default=None):
-        cf, code = key if self.keyed else (None, key)
+        if self.mode == 'nested':
+            return self.sub.get(key, default)
+        cf, code = key if self.mode == 'pair' else (None, key)
         for lo, hi, v in self.rows.get(cf, ()):
             if lo <= code <= hi:
                 return v
         return default
 
+    def __getitem__(self, key):
+        v = self.get(key, self._MISSING)
+        if v is self._MISSING:
+            raise KeyError(key)
+        return v
+
+    def __contains__(self, key):
+        return self.get(key, self._MISSING) is not self._MISSING
+
+    def __bool__(self):
+        return True
+
     def boundaries_agree(self, real):
+        if self.mode == 'nested':
+            return all((v.boundaries_agree(real[k]) if isinstance(v, IntervalTable) else v == real[k])
+                       for k, v in self.sub.items())
         for cf, rows in self.rows.items():
             for lo, hi, v in rows:
                 for code in (lo - 1, lo, hi, hi + 1, (lo + hi) // 2):
-                    k = (cf, code) if self.keyed else code
+                    k = (cf, code) if self.mode == 'pair' else code
                     if self.get(k, '??') != real.get(k, '??'):
                         return False
         return True
 
 
+REAL = {}           # name -> the module's own table (a real dict), as import left it
+WRAPPED = {}        # name -> its stand-in
+UNWRAPPED = []      # big tables whose organisation the stand-in does not understand (left as they are: the solver
+                    # then enumerates codes and the conditions end inconclusive rather than wrong)
+
+
 def _install():
-    if api.REPLAY:
+    if api.REPLAY or REAL:
         return
-    real_s, real_g = statuses._status_dict, statuses._general_status_dict
-    if isinstance(real_s, IntervalTable):
-        return
-    ts, tg = IntervalTable(real_s, True), IntervalTable(real_g, False)
-    assert ts.boundaries_agree(real_s) and tg.boundaries_agree(real_g)
-    statuses._status_dict, statuses._general_status_dict = ts, tg
+    for name, v in list(vars(statuses).items()):
+        if type(v) is dict and not name.startswith('__') and (len(v) > 256 or any(
+                isinstance(x, dict) and len(x) > 256 for x in v.values())):
+            try:
+                t = IntervalTable(v)
+                assert t.boundaries_agree(v)
+            except (Unwrappable, AssertionError):
+                UNWRAPPED.append(name)
+                continue
+            REAL[name] = v
+            WRAPPED[name] = t
+            setattr(statuses, name, t)
 
 
 _install()
@@ -127,7 +177,88 @@ def status_history(v: int) -> bool:
     return ok
 
 
+LATER = [
+    # (code, end, type, command field or None) registered by an application after import
+    (0xFF00, None, 'Failure', None),          # a general meaning for a code that is Pending for C-FIND / C-GET / C-MOVE
+    (0xB000, 0xB0FF, 'Failure', None),        # a general range over service-specific warnings
+    (0xA700, 0xA7FF, 'Warning', None),        # a general range over service-specific failures
+    (0x0000, None, 'Success', None),          # re-registering success
+    (0xD000, 0xD0FF, 'Warning', 0x8001),      # a private C-STORE warning range
+    (0xFE00, None, 'Cancel', None),
+]
+
+
+@cond(bounds='registration after import: an application registers one more status (6 cases: general meanings for codes '
+             'that have a service-specific class, a re-registration, a private service-specific range) through the '
+             'real add_status; afterwards every code 0..65535 (symbolic) for the message class of the instance must '
+             'still be classified as exactly one class, with the standard\'s service-specific class in preference to '
+             'any general one (a general registration never overrides C-STORE / C-FIND / C-GET / C-MOVE codes)',
+      family=[dict(later=i, cmd=c) for i in range(len(LATER)) for c in (None, 0x8001, 0x8020, 0x8010, 0x8021, 0x8030)],
+      timeout=90)
+def registered_later(v: int) -> bool:
+    """
+    pre: 0 <= v <= 65535
+    post: _
+    """
+    _STATE.restore()
+    code, end, typ, ccf = LATER[fam('later')]
+    from vt import sim
+    with sim._no_tracing():
+        if not api.REPLAY:
+            # the registration itself runs concretely on the module's own tables (copies of what import left)
+            for name, real in REAL.items():
+                setattr(statuses, name, dict((k, dict(x) if isinstance(x, dict) else x) for k, x in real.items()))
+        snap = None if not api.REPLAY else _replay_snapshot()
+        statuses.add_status(code, typ, 'registered later', end, dm.MESSAGE_TYPE[ccf] if ccf else None)
+        if not api.REPLAY:
+            for name in REAL:
+                setattr(statuses, name, IntervalTable(getattr(statuses, name)))
+    try:
+        cf = fam('cmd')
+        got, styp = classify(v, cf)
+        ok = len(got) == 1 and got[0] == styp
+        hi = code if end is None else end
+        service = ref.allowed_classes(cf, v) if any(lo <= v <= h for lo, h, _ in ref.SERVICE.get(cf, ())) else None
+        if v == 0 and not (code == 0):
+            ok = ok and styp == 'Success'
+        elif service is not None:
+            ok = ok and styp in service                  # service-specific class wins, whatever was registered
+        elif code <= v <= hi and (ccf is None or ccf == cf):
+            ok = ok and styp == typ                      # what the application registered
+        else:
+            ok = ok and styp in ref.allowed_classes(cf, v)
+        deep(ok and code <= v <= hi)
+        return ok
+    finally:
+        with sim._no_tracing():
+            if api.REPLAY:
+                _replay_restore(snap)
+            else:
+                for name, t in WRAPPED.items():
+                    setattr(statuses, name, t)
+
+
+def _replay_snapshot():
+    return dict((name, (v, dict((k, dict(x) if isinstance(x, dict) else x) for k, x in v.items())))
+                for name, v in vars(statuses).items() if type(v) is dict and not name.startswith('__'))
+
+
+def _replay_restore(snap):
+    for name, (obj, copy) in snap.items():
+        obj.clear()
+        obj.update(copy)
+
+
 def explain(cname, args, famv):
+    if cname == 'registered_later':
+        code, end, typ, ccf = LATER[famv['later']]
+        snap = _replay_snapshot()
+        statuses.add_status(code, typ, 'registered later', end, dm.MESSAGE_TYPE[ccf] if ccf else None)
+        got, styp = classify(args['v'], famv['cmd'])
+        _replay_restore(snap)
+        return 'after add_status(0x%04X..%s, %r, command=%r): Status(0x%04X, %r) -> %r %r; service-specific class by ' \
+               'PS3.4: %r' % (code, end, typ, ccf, args['v'], famv['cmd'], got, styp,
+                              ref.allowed_classes(famv['cmd'], args['v']))
     if cname == 'status_history':
         cf1, cf2 = HIST[famv['first']], HIST[famv['second']]
         classify(args['v'], cf1)
